@@ -60,7 +60,12 @@ func New[T any](ctx context.Context, cap int) (<-chan T, chan<- T) {
 					}
 				}
 				if open {
+					// a send may complete between the last look at the buffer and
+					// the close; nothing can complete after the close
 					close(in)
+					for x := range in {
+						enq(&x, mq)
+					}
 				}
 				flush()
 				return
